@@ -11,7 +11,7 @@ def job(name, props, unwind, tier="quick"):
 for t, n in types:
     u = n + 2
     job("enc_%s" % t, "C03 C06", u)
-    job("dec_%s_spec" % t, "C04 C11", u)
+    job("dec_%s_spec" % t, "C04 C02 C11", u)
     job("dec_%s_ped" % t, "C04 C02 C11", u)
     job("dec_%s_buf" % t, "C04 C02", u, "thorough")
     job("rt_%s_ped_ped" % t, "C01", u)
